@@ -68,16 +68,35 @@ func genesisCoins(tok string) (cs sdk.Coins, err error) {
 	return sdk.NewCoins(raw...), nil
 }
 
-// New builds a fresh application for the scenario genesis and runs InitChain + Commit.
+// ValBalance is the liquid nund balance of V in genesis. It is small enough for the uint64 fields
+// of the EnterpriseSupply query to stay meaningful (PROTOCOL.md §7) and large enough for every
+// gov deposit (1nund each, refunded in the same block).
+var ValBalance = pow10(12)
+
+// New builds a fresh application on a MemDB for the scenario genesis and runs InitChain + Commit.
 // home is a scratch directory owned by the caller.
-func New(g *script.Genesis, home string) (r *Runner, err error) {
+func New(g *script.Genesis, home string) (*Runner, error) { return NewOn(g, home, "memdb") }
+
+// newApp constructs the application object on db. Crisis invariant checking at genesis stays
+// on (no skip flag); the periodic invariant check is off.
+func newApp(db dbm.DB, home string) *app.App {
+	return app.NewApp(log.NewNopLogger(), db, nil, true,
+		simtestutil.AppOptionsMap{flags.FlagHome: home, server.FlagInvCheckPeriod: uint(0)},
+		baseapp.SetChainID(ChainID))
+}
+
+// NewOn is New with a database backend: "memdb" or "goleveldb" (directories below home).
+func NewOn(g *script.Genesis, home, backend string) (r *Runner, err error) {
 	configOnce.Do(app.SetConfig)
 	defer func() {
 		if p := recover(); p != nil {
 			r, err = nil, fmt.Errorf("genesis rejected by the application: %v", p)
 		}
 	}()
-	r = &Runner{G: g, Sym: NewSymbols(len(g.Accts))}
+	r = &Runner{G: g, Sym: NewSymbols(len(g.Accts)), Home: home, backend: backend}
+	if err := r.Sym.CheckAddrs(g.Addrs); err != nil {
+		return nil, err
+	}
 	r.valPriv = secp256k1.GenPrivKeyFromSecret([]byte("verif-val"))
 	r.badPriv = secp256k1.GenPrivKeyFromSecret([]byte("verif-bad"))
 	r.ValAddr = sdk.AccAddress(r.valPriv.PubKey().Address())
@@ -85,16 +104,17 @@ func New(g *script.Genesis, home string) (r *Runner, err error) {
 	validator := tmtypes.NewValidator(consPub, 1)
 	r.consAddr = validator.Address
 
-	a := app.NewApp(log.NewNopLogger(), dbm.NewMemDB(), nil, true,
-		simtestutil.AppOptionsMap{flags.FlagHome: home, server.FlagInvCheckPeriod: uint(0)},
-		baseapp.SetChainID(ChainID))
+	if r.db, r.dbDir, err = r.openDB(); err != nil {
+		return nil, err
+	}
+	a := newApp(r.db, home)
 	r.App = a
 	cdc := a.AppCodec()
 	gs := a.DefaultGenesis()
 
 	// --- auth + bank: V first, then the declared accounts
 	accs := []authtypes.GenesisAccount{authtypes.NewBaseAccount(r.ValAddr, nil, 0, 0)}
-	bals := []banktypes.Balance{{Address: r.ValAddr.String(), Coins: sdk.NewCoins(sdk.NewCoin(BondDenom, pow10(30)))}}
+	bals := []banktypes.Balance{{Address: r.ValAddr.String(), Coins: sdk.NewCoins(sdk.NewCoin(BondDenom, ValBalance))}}
 	for i, ac := range g.Accts {
 		if ac.Kind == "none" {
 			continue
@@ -200,5 +220,7 @@ func New(g *script.Genesis, home string) (r *Runner, err error) {
 	r.Time = time.Unix(g.Time, 0).UTC()
 	a.InitChain(abci.RequestInitChain{ChainId: ChainID, Time: r.Time, ConsensusParams: &cp, AppStateBytes: state})
 	a.Commit()
+	r.checkZero = true
+	r.markCommitted()
 	return r, nil
 }
